@@ -127,11 +127,32 @@ def perf_specs(draw, tier="quick"):
         nparts = draw(st.integers(1, 3))
         owner = None  # drawn per key / control
     local_ids = draw(st.sampled_from(["rank", "global"]))
+    # audit: Performance(..., ensure_unique_tracks=False) keeps the given numbers (then the numbers have to be
+    # global, otherwise two generated tracks would share a file track and their equal keys could overlap)
+    unique = True
+    if kind == "performance" and draw(st.sampled_from([False] * 7 + [True])):
+        unique = False
+        local_ids = "global"
+    # audit: track numbers with gaps / not starting at 0 (increasing, so the order of the tracks is kept)
+    numbering = draw(st.sampled_from(["dense", "dense", "dense", "gaps"]))
+    if numbering == "gaps":
+        steps = [draw(st.sampled_from([0, 1, 1, 2, 5])) for _ in range(ntracks)]
+        track_numbers, cur = [], -1
+        for s_ in steps:
+            cur += 1 + s_
+            track_numbers.append(cur)
+    else:
+        track_numbers = list(range(ntracks))
+    # audit: the way the performed parts are built and which optional keys the dictionaries carry
+    build = draw(st.sampled_from(["dict"] * 6 + ["pnote", "note_array", "note_array"]))
+    bare = draw(st.sampled_from(["no", "no", "no", "notes", "controls", "both"]))
+    if build == "note_array":
+        bare = "controls" if bare in ("controls", "both") else "no"
 
     def local_track(g):
         if kind != "performance" or local_ids == "global":
-            return g
-        return [h for h in range(ntracks) if owner[h] == owner[g]].index(g)
+            return track_numbers[g]
+        return track_numbers[[h for h in range(ntracks) if owner[h] == owner[g]].index(g)]
 
     parts = [
         dict(notes=[], controls=[], programs=[], key_signatures=[], time_signatures=[], meta_other=[])
@@ -141,14 +162,20 @@ def perf_specs(draw, tier="quick"):
     span = 0
     for g in range(ntracks):
         nkeys = draw(st.integers(1, 3))
+        # audit: a track that holds controls / programs only (never the only track)
+        noteless = ntracks >= 2 and draw(st.sampled_from([False] * 7 + [True]))
+        if noteless:
+            nkeys = 0
         made = 0
         for _ in range(nkeys):
             ch, pitch = draw(_channel()), draw(_pitch())
+            if bare in ("notes", "both") and draw(st.booleans()):
+                ch = 1  # the documented default channel of a performed note: its key can be left out below
             key = (ch, pitch) if merged else (g, ch, pitch)
             if key in used_keys:
                 if made:
                     continue
-                while key in used_keys:  # every track needs at least one note
+                while key in used_keys:  # every track (but a noteless one) needs at least one note
                     pitch = (pitch + 1) % 128
                     key = (ch, pitch) if merged else (g, ch, pitch)
             used_keys.add(key)
@@ -170,7 +197,7 @@ def perf_specs(draw, tier="quick"):
                 parts[p]["notes"].append(
                     dict(midi_pitch=pitch, note_on=a, note_off=b, velocity=draw(st.integers(1, 127)), channel=ch, track=local_track(g))
                 )
-        for _ in range(draw(st.sampled_from([0, 0, 1, 2, 4]))):
+        for _ in range(draw(st.sampled_from([1, 2, 4] if noteless else [0, 0, 1, 2, 4]))):
             p = owner[g] if owner is not None else draw(st.integers(0, nparts - 1))
             if draw(st.sampled_from([True, True, False])):
                 t = _time(draw(_position(max(span, 10))), ppq, mpq)
@@ -237,7 +264,29 @@ def perf_specs(draw, tier="quick"):
 
     # a list may have drawn parts without any note: drop them (the empty part is its own class below)
     if kind == "list":
-        parts = [q for q in parts if q["notes"]]
+        parts = [q for q in parts if q["notes"] or q["controls"] or q["programs"]]
+    # audit: optional keys left out (PerformedNote documents the defaults velocity 60, channel 1, track 0; the
+    # match importer builds its pedal controls with number / time / value only)
+    for q in parts:
+        if bare in ("notes", "both"):
+            for n in q["notes"]:
+                if draw(st.booleans()):
+                    del n["velocity"]
+                if n["channel"] == 1 and draw(st.booleans()):
+                    del n["channel"]
+                if n["track"] == 0 and draw(st.booleans()):
+                    del n["track"]
+        if bare in ("controls", "both") and draw(st.sampled_from([True, True, False])):
+            for c in q["controls"]:
+                del c["channel"]
+                del c["track"]
+        if build == "note_array" and q["notes"]:
+            omit = []
+            if all(n.get("channel", 1) == 1 for n in q["notes"]) and draw(st.booleans()):
+                omit.append("channel")
+            if all(n.get("track", 0) == 0 for n in q["notes"]) and draw(st.booleans()):
+                omit.append("track")
+            q["na_omit"] = omit
     # order of the note lists
     for q in parts:
         if order == "sorted":
@@ -260,6 +309,15 @@ def perf_specs(draw, tier="quick"):
         default_bpm=draw(st.sampled_from([120, 120, 60, 100])),
         io=draw(st.sampled_from(["path", "path", "fileobj", "object"])),
         api=draw(st.sampled_from(["midi", "midi", "generic"])),
+        # audit dimensions (all read with spec.get(..) so that older replay files keep their meaning)
+        build=build,
+        unique=unique,
+        perf_arg=draw(st.sampled_from(["list", "list", "single"])) if kind == "performance" and len(parts) == 1 else "list",
+        list_as=draw(st.sampled_from(["list", "list", "list", "tuple", "generator"])) if kind == "list" else "list",
+        path_type=draw(st.sampled_from(["str", "str", "pathlib"])),
+        first_note_at_zero=draw(st.sampled_from([False, False, True])),
+        pedal_threshold=draw(st.sampled_from([64, 64, 0, 1, 100, 127, 128])),
+        resave=draw(st.sampled_from([False, True])),
     )
 
 
@@ -356,7 +414,12 @@ def midi_specs(draw, tier="quick"):
     for tick in tempo_ticks:
         ti = 0 if where == "first" else (ntracks - 1 if where == "last" else draw(st.integers(0, ntracks - 1)))
         mpq = draw(st.one_of(st.sampled_from([500000, 250000, 1000000, 600000]), st.integers(1000, 4000000)))
-        tracks[ti].append((tick, draw(st.integers(0, 5)), 0, dict(m="set_tempo", tempo=mpq)))
+        g = draw(st.integers(0, 5))
+        tracks[ti].append((tick, g, 0, dict(m="set_tempo", tempo=mpq)))
+        # audit: a second set_tempo on the same tick of the same track (the later one is in force)
+        if draw(st.sampled_from([False] * 5 + [True])):
+            mpq2 = draw(st.one_of(st.sampled_from([500000, 250000, 1000000]), st.integers(1000, 4000000)))
+            tracks[ti].append((tick, g, 1, dict(m="set_tempo", tempo=mpq2)))
     out = []
     for evs in tracks:
         evs = sorted(evs, key=lambda e: (e[0], e[1], e[2]))
@@ -376,4 +439,7 @@ def midi_specs(draw, tier="quick"):
         default_bpm=draw(st.sampled_from([120, 120, 60, 100, 50, 200, 96, 150])),
         api=draw(st.sampled_from(["midi", "midi", "generic"])),
         io=draw(st.sampled_from(["path", "path", "object"])),
+        path_type=draw(st.sampled_from(["str", "str", "pathlib"])),
+        first_note_at_zero=draw(st.sampled_from([False, False, True])),
+        pedal_threshold=draw(st.sampled_from([64, 64, 0, 100, 127])),
     )
